@@ -579,6 +579,18 @@ def _is_subtype(sub_type: Any, super_type: Any, context: Dict[str, Any] = None) 
         True
         >>> _is_subtype(int | None, int)
         False
+        >>> _is_subtype(bool, Union[int, str])
+        True
+        >>> _is_subtype(Union[bool, str], Optional[Union[int, str]])
+        True
+        >>> _is_subtype(Union[bool, float], Union[int, str])
+        False
+        >>> _is_subtype(List[bool], Optional[List[int]])
+        True
+        >>> _is_subtype(int, Union['SomeClass', int])
+        True
+        >>> _is_subtype(str, Union['SomeClass', int])
+        False
     """
 
     if sub_type is None:
@@ -595,12 +607,12 @@ def _is_subtype(sub_type: Any, super_type: Any, context: Dict[str, Any] = None) 
 
         if python_sub == typing.Union or isinstance(python_sub, types.UnionType):
             sub_type_args = get_type_arguments(cls=sub_type)
-            return all([x in type_args for x in sub_type_args])
+            return all(_is_subtype(sub_type=x, super_type=super_type, context=context) for x in sub_type_args)  # every member
 
         if any([type(ta) == _ProtocolMeta for ta in type_args]):
             return True  # shortcut
 
-        return sub_type in type_args
+        return any(_is_subtype(sub_type=sub_type, super_type=ta, context=context) for ta in type_args)  # some member
 
     if not _is_generic(sub_type):
         try:
@@ -652,7 +664,7 @@ def _get_class_of_type_annotation(annotation: Any) -> Any:
 
     if annotation in [Any, Ellipsis]:
         return object
-    elif annotation.__module__ == 'typing' and annotation.__origin__ is not None:
+    elif annotation.__module__ == 'typing' and getattr(annotation, '__origin__', None) is not None:  # a ForwardRef has no __origin__
         return annotation.__origin__
 
     return annotation
